@@ -26,10 +26,10 @@ namespace Rt
 
 /-- two's-complement wrap of a mathematical integer into `bits`-bit signed range -/
 def wrapS (bits : Nat) (i : Int) : Int :=
-  let r := i % (2 ^ bits : Int)
-  if r < (2 ^ (bits - 1) : Int) then r else r - (2 ^ bits : Int)
+  let r := i % ((2 ^ bits : Nat) : Int)
+  if r < ((2 ^ (bits - 1) : Nat) : Int) then r else r - ((2 ^ bits : Nat) : Int)
 
-def inS (bits : Nat) (i : Int) : Bool := -(2 ^ (bits - 1) : Int) ≤ i ∧ i < (2 ^ (bits - 1) : Int)
+def inS (bits : Nat) (i : Int) : Bool := -((2 ^ (bits - 1) : Nat) : Int) ≤ i ∧ i < ((2 ^ (bits - 1) : Nat) : Int)
 
 /-- result of a signed operation whose mathematical value is `r` -/
 def chkS (bits : Nat) (mode : Mode) (r : Int) : Res Int :=
@@ -50,8 +50,8 @@ def srem (bits : Nat) (a b : Int) : Res Int :=
 
 /-- result of an unsigned operation whose mathematical value is `r` (an `Int`: it may be negative) -/
 def chkU (bits : Nat) (mode : Mode) (r : Int) : Res Nat :=
-  if 0 ≤ r ∧ r < (2 ^ bits : Int) then Res.ok r.toNat
-  else if mode = Mode.debug then Res.panic "arith-overflow" else Res.ok (r % (2 ^ bits : Int)).toNat
+  if 0 ≤ r ∧ r < ((2 ^ bits : Nat) : Int) then Res.ok r.toNat
+  else if mode = Mode.debug then Res.panic "arith-overflow" else Res.ok (r % ((2 ^ bits : Nat) : Int)).toNat
 
 def uadd (bits : Nat) (mode : Mode) (a b : Nat) : Res Nat := chkU bits mode ((a : Int) + b)
 def usub (bits : Nat) (mode : Mode) (a b : Nat) : Res Nat := chkU bits mode ((a : Int) - b)
@@ -61,7 +61,7 @@ def urem (a b : Nat) : Res Nat := if b = 0 then Res.panic "div-by-zero" else Res
 
 /-- `as` casts never panic: they truncate / reinterpret -/
 def castUU (bits : Nat) (x : Nat) : Nat := x % 2 ^ bits
-def castSU (bits : Nat) (x : Int) : Nat := (x % (2 ^ bits : Int)).toNat
+def castSU (bits : Nat) (x : Int) : Nat := (x % ((2 ^ bits : Nat) : Int)).toNat
 def castUS (bits : Nat) (x : Nat) : Int := wrapS bits (x : Int)
 def castSS (bits : Nat) (x : Int) : Int := wrapS bits x
 def ofBool (b : Bool) : Nat := if b then 1 else 0
@@ -74,12 +74,12 @@ def ushr (bits : Nat) (mode : Mode) (a k : Nat) : Res Nat :=
   if k < bits then Res.ok (a / 2 ^ k)
   else if mode = Mode.debug then Res.panic "shift-overflow" else Res.ok (a / 2 ^ (k % bits))
 def sshl (bits : Nat) (mode : Mode) (a : Int) (k : Nat) : Res Int :=
-  if k < bits then Res.ok (wrapS bits (a * (2 ^ k : Int)))
-  else if mode = Mode.debug then Res.panic "shift-overflow" else Res.ok (wrapS bits (a * (2 ^ (k % bits) : Int)))
+  if k < bits then Res.ok (wrapS bits (a * ((2 ^ k : Nat) : Int)))
+  else if mode = Mode.debug then Res.panic "shift-overflow" else Res.ok (wrapS bits (a * ((2 ^ (k % bits) : Nat) : Int)))
 /-- arithmetic shift right = floor division -/
 def sshr (bits : Nat) (mode : Mode) (a : Int) (k : Nat) : Res Int :=
-  if k < bits then Res.ok (a / (2 ^ k : Int))
-  else if mode = Mode.debug then Res.panic "shift-overflow" else Res.ok (a / (2 ^ (k % bits) : Int))
+  if k < bits then Res.ok (a / ((2 ^ k : Nat) : Int))
+  else if mode = Mode.debug then Res.panic "shift-overflow" else Res.ok (a / ((2 ^ (k % bits) : Nat) : Int))
 
 def band (a b : Nat) : Nat := a &&& b
 def bor (a b : Nat) : Nat := a ||| b
@@ -138,34 +138,42 @@ structure Os where
   log : List (String × List Val)
   deriving Repr
 
-def M (α : Type) : Type := Os → Res α × Os
+/-- effectful translated code: a function of the OS state (a structure, so that nothing unfolds it) -/
+structure M (α : Type) where
+  fn : Os → Res α × Os
+
+/-- run an effectful translated function from an OS state (oracle answers + log so far) -/
+def run {α : Type} (m : M α) (os : Os) : Res α × Os := m.fn os
+
+def M.bind {α β : Type} (m : M α) (f : α → M β) : M β :=
+  ⟨fun os => match m.fn os with
+    | (Res.ok v, os') => (f v).fn os'
+    | (Res.panic w, os') => (Res.panic w, os')⟩
 
 instance : Monad M where
-  pure v := fun os => (Res.ok v, os)
-  bind m f := fun os =>
-    match m os with
-    | (Res.ok v, os') => f v os'
-    | (Res.panic w, os') => (Res.panic w, os')
+  pure v := ⟨fun os => (Res.ok v, os)⟩
+  bind := M.bind
 
 instance : MonadLift Res M where
-  monadLift r := fun os => (r, os)
+  monadLift r := ⟨fun os => (r, os)⟩
 
 def logCall (name : String) (args : List Val) (os : Os) : Os := { os with log := os.log ++ [(name, args)] }
 
-def extU (name : String) (args : List Val) : M Unit := fun os => (Res.ok (), logCall name args os)
-def extI (name : String) (args : List Val) : M Int := fun os =>
+def extU (name : String) (args : List Val) : M Unit := ⟨fun os => (Res.ok (), logCall name args os)⟩
+def extI (name : String) (args : List Val) : M Int := ⟨fun os =>
   match os.answers with
   | Val.n i :: rest => (Res.ok i, { logCall name args os with answers := rest })
-  | _ => (Res.panic "oracle-exhausted", logCall name args os)
-def extN (name : String) (args : List Val) : M Nat := fun os =>
+  | _ => (Res.panic "oracle-exhausted", logCall name args os)⟩
+def extN (name : String) (args : List Val) : M Nat := ⟨fun os =>
   match os.answers with
   | Val.n i :: rest => (Res.ok i.toNat, { logCall name args os with answers := rest })
-  | _ => (Res.panic "oracle-exhausted", logCall name args os)
-def extB (name : String) (args : List Val) : M (List Nat) := fun os =>
+  | _ => (Res.panic "oracle-exhausted", logCall name args os)⟩
+def extB (name : String) (args : List Val) : M (List Nat) := ⟨fun os =>
   match os.answers with
   | Val.bs l :: rest => (Res.ok l, { logCall name args os with answers := rest })
-  | _ => (Res.panic "oracle-exhausted", logCall name args os)
-def panicNow {α : Type} (msg : String) : M α := fun os => (Res.panic msg, os)
+  | _ => (Res.panic "oracle-exhausted", logCall name args os)⟩
+def panicNow {α : Type} (msg : String) : M α := ⟨fun os => (Res.panic msg, os)⟩
+
 def sabs (bits : Nat) (mode : Mode) (a : Int) : Res Int := chkS bits mode (if a < 0 then -a else a)
 
 end Rt
